@@ -178,7 +178,7 @@ Proof.
   - (* LDialOk *) eapply (InvA_same s _ i c0 (set_wait c0 Enq (now s))); eauto; pcs; rewrite Heqp; reflexivity.
   - (* LDialFail *) eapply (InvA_same s _ i c0 (set_out c0 Error (k_e c0))); eauto; pcs; rewrite Heqp; reflexivity.
   - (* LDialTimeout *) eapply (InvA_same s _ i c0 (set_out c0 Error (k_e c0))); eauto; pcs; rewrite Heqp; reflexivity.
-  - (* LEnq *) eapply (InvA_same s _ i c0 (set_enq c0 (k_t0 c0 <? now s))); eauto; pcs; rewrite Heqp; reflexivity.
+  - (* LEnq *) eapply (InvA_same s _ i c0 (set_enq c0 (k_t0 c0 <? now s))); eauto; pcs; rewrite Heqp; destruct (k_ow c0); reflexivity.
   - (* LEnqTimeout *) eapply (InvA_same s _ i c0 (set_out c0 Error true)); eauto; pcs; rewrite Heqp; reflexivity.
   - (* LCtxFire *) eapply (InvA_same s _ i c0 (set_out c0 Timeout (k_e c0))); eauto; pcs; rewrite Heqp; reflexivity.
   - (* LClean *) destruct HA as [Hq Hn Hr Hd]. split; cbn [calls queueLen invokeNum resp].
@@ -252,7 +252,7 @@ Ltac splitifs :=
   | |- context [if ?b then _ else _] => destruct b eqn:?
   | H : context [if ?b then _ else _] |- _ => destruct b eqn:?
   end.
-Ltac tsolve := unfold time_ok, B, dl_d, wr_e in *; pcs; fields; usepc; fields; splitifs; lia.
+Ltac tsolve := unfold time_ok, B, dl_d, wr_e in *; pcs; fields; usepc; fields; splitifs; fields; splitifs; lia.
 
 Lemma InvT_init : forall c, InvT c init.
 Proof. intros c i k H. destruct i; discriminate. Qed.
@@ -302,7 +302,7 @@ Proof.
   destruct l; inv_step H; cbn [calls lock with_calls with_rcvs];
     try exact HL;
     try (match goal with Hk : nth_error (calls s) ?i = Some ?k |- context [upd (calls s) ?i ?x] =>
-           apply (InvL_same s _ i k x HL Hk); [pcs; congruence|pcs; fields; congruence|reflexivity] end).
+           apply (InvL_same s _ i k x HL Hk); [pcs; congruence|pcs; splitifs; fields; congruence|reflexivity] end).
   - (* Start *) destruct HL as [H1 H2]. split.
     + intros i Hi. destruct (H1 _ Hi) as [k [Hk Hd]]. exists k. split; [|exact Hd].
       rewrite nth_error_app1; [exact Hk|]. apply nth_error_Some. congruence.
@@ -393,21 +393,26 @@ Definition out_ok (s : state) (i : nat) (k : call) : Prop :=
   end
   /\ (forall p, k_out k = Some (Reply p) -> In (id_of i, p) (sent s))
   /\ (k_out k = Some Timeout -> k_dl k <= now s)
-  /\ (k_out k = Some Error -> notq s i).
+  /\ (k_out k = Some Error -> notq s i)
+  /\ (k_out k = Some Sent -> In i (sendq s) \/ In i (wire s))
+  /\ (k_out k = Some Sent -> k_ow k = true).
 Definition InvO (s : state) : Prop :=
   all_calls (out_ok s) (calls s) /\ (forall i, In i (sendq s) \/ In i (wire s) -> (i < length (calls s))%nat).
 
 Lemma out_ok_frame : forall s s' j k,
   (In j (sendq s') -> In j (sendq s)) -> (In j (wire s') -> In j (sendq s) \/ In j (wire s)) ->
+  (In j (sendq s) \/ In j (wire s) -> In j (sendq s') \/ In j (wire s')) ->
   incl (sent s) (sent s') -> now s <= now s' -> out_ok s j k -> out_ok s' j k.
 Proof.
-  intros s s' j k Hq Hw Hs Hn [H1 [H2 [H3 H4]]].
+  intros s s' j k Hq Hw Hf Hs Hn [H1 [H2 [H3 [H4 [H5 H6]]]]].
   assert (Hnq : notq s j -> notq s' j) by (intros [A1 A2]; split; intros A; [apply A1; auto|destruct (Hw A); auto]).
-  unfold out_ok. split; [|split; [|split]].
+  unfold out_ok. split; [|split; [|split; [|split; [|split]]]].
   - destruct (k_pc k); try exact H1; destruct H1 as [A1 A2]; split; auto.
   - intros p Hp. apply Hs. auto.
   - intros Ht. specialize (H3 Ht). lia.
   - intros He. apply Hnq. auto.
+  - intros He. apply Hf. auto.
+  - exact H6.
 Qed.
 
 Lemma InvO_init : InvO init.
@@ -444,9 +449,12 @@ Proof.
     + apply (all_upd2 _ _ _ _ _ Heqo).
       * intros j k' Hne Hk'.
         apply (out_ok_frame s); cbn [sendq wire sent now]; auto using incl_refl; try lia.
-        intros A. apply in_app_or in A. destruct A as [A|[A|[]]]; [exact A|congruence].
-      * pose proof (HO _ _ Heqo) as Hok. unfold out_ok, notq in *. cbn [sendq wire sent now]. pcs. fields. rewrite Heqp in *.
-        destruct Hok as [[A1 [A2 A3]] [B1 [B2 B3]]]. rewrite A1. repeat split; intros; try discriminate; auto.
+        -- intros A. apply in_app_or in A. destruct A as [A|[A|[]]]; [exact A|congruence].
+        -- intros [A|A]; [left; apply in_or_app; left; exact A|right; exact A].
+      * pose proof (HO _ _ Heqo) as Hok. unfold out_ok, notq in *. cbn [sendq wire sent now]. pcs. rewrite Heqp in Hok.
+        destruct Hok as [[A1 [A2 A3]] [B1 [B2 [B3 [B4 B5]]]]]. destruct (k_ow c0) eqn:How; fields; rewrite ?A1;
+          repeat split; intros; try discriminate; eauto.
+        left. apply in_or_app. right. left. reflexivity.
     + rewrite upd_length. intros j [A|A]; [|apply HI; auto]. apply in_app_or in A. destruct A as [A|[<-|[]]]; [apply HI; auto|].
       apply nth_error_Some. congruence.
   - osolve.
@@ -457,6 +465,7 @@ Proof.
     + intros j k' Hk'. apply (out_ok_frame s); cbn [sendq wire sent now]; auto using incl_refl; try lia.
       * rewrite Heql. intros A; right; exact A.
       * rewrite Heql. intros [<-|A]; [left; left; reflexivity|right; exact A].
+      * rewrite Heql. intros [[<-|A]|A]; [right; left; reflexivity|left; exact A|right; right; exact A].
     + intros j HA. apply HI. cbn [In]. destruct HA as [A|[<-|A]]; auto.
   - (* LDeliver *)
     pose proof (HR _ _ Heqo) as [Hin Hrf]. rewrite Heqr1 in Hrf. destruct Hrf as [Hc _]. apply call_of_id in Hc.
@@ -539,10 +548,12 @@ Theorem outcome_classes : forall c s i k, reach c s -> nth_error (calls s) i = S
     | Reply p => In (id_of i, p) (sent s)                 (* a packet the peer sent with this call's id *)
     | Timeout => k_dl k <= k_ret k                         (* never before the deadline *)
     | Error => ~ In i (sendq s) /\ ~ In i (wire s)         (* the request never left *)
+    | Sent => k_ow k = true /\ (In i (sendq s) \/ In i (wire s))   (* one-way: the request was queued *)
     end.
 Proof.
   intros c s i k H Hk Hp. destruct (InvO_reach c s H) as [HO _]. specialize (HO _ _ Hk). unfold out_ok in HO. rewrite Hp in HO.
-  destruct HO as [[[o Ho] Ht] [Hr [_ He]]]. exists o. split; [exact Ho|]. destruct o; [apply Hr; exact Ho|apply Ht; exact Ho|apply He; exact Ho].
+  destruct HO as [[[o Ho] Ht] [Hr [_ [He [Hs Hw]]]]]. exists o. split; [exact Ho|].
+  destruct o; [apply Hr; exact Ho|apply Ht; exact Ho|apply He; exact Ho|split; [apply Hw; exact Ho|apply Hs; exact Ho]].
 Qed.
 
 (* ---- returns ---- *)
@@ -600,12 +611,12 @@ Fixpoint ticks (n : nat) : list label := match n with O => [] | S m => Tick :: t
 (* (a) two callers, connection establishment stalls: the second caller waits for connLock while the first one dials *)
 Definition stalled_cfg : cfg := mkcfg 40 60 10 100 100000.
 Definition stalled_trace : list label :=
-  [Start 20; Start 20; LPre 0; LReg 0; LLock 0; LPre 1; LReg 1] ++ ticks 40 ++
+  [Start 20 false; Start 20 false; LPre 0; LReg 0; LLock 0; LPre 1; LReg 1] ++ ticks 40 ++
   [LDialTimeout 0; LClean 0; LPost 0; LLock 1] ++ ticks 40 ++ [LDialTimeout 1; LClean 1; LPost 1].
 (* (b) the peer accepts and never reads, send queue of length 1: the second caller waits WriteTimeout for room *)
 Definition fullq_cfg : cfg := mkcfg 10 60 10 1 100000.
 Definition fullq_trace : list label :=
-  [Start 10; Start 10; LPre 0; LReg 0; LLock 0; LDialOk 0; LEnq 0; LPre 1; LReg 1; LLock 1] ++ ticks 10 ++
+  [Start 10 false; Start 10 false; LPre 0; LReg 0; LLock 0; LDialOk 0; LEnq 0; LPre 1; LReg 1; LLock 1] ++ ticks 10 ++
   [LCtxFire 0; LClean 0; LPost 0] ++ ticks 50 ++ [LEnqTimeout 1; LClean 1; LPost 1].
 
 Definition late_call (c : cfg) (ls : list label) (i : nat) : bool :=
@@ -740,7 +751,7 @@ Proof.
       specialize (Hm (set_out k Error (k_e k))). cbn in Hm. split; [lia|reflexivity].
     + destruct (N.of_nat (length (sendq s)) <? qcap c) eqn:Hr.
       * exists (LEnq i). eexists. cbn [step]. rewrite Hk, Hp, Hr. split; [discriminate|]. split; [reflexivity|]. unfold mu; cbn [calls rcvs now].
-        specialize (Hm (set_enq k (k_t0 k <? now s))). cbn in Hm. split; [lia|reflexivity].
+        specialize (Hm (set_enq k (k_t0 k <? now s))). unfold set_enq in *. destruct (k_ow k); cbn in Hm; (split; [lia|reflexivity]).
       * cbn [orb] in Hc. apply andb_true_iff in Hc. destruct Hc as [Hw Hd].
         assert (Hg : (0 <? writeT c) && (k_t0 k + lo (writeT c) <=? now s) = true).
         { rewrite Hw. cbn [andb]. pose proof (lo_le (writeT c)). lia. }
@@ -783,16 +794,21 @@ Qed.
 
 (* ---- non-vacuity: concrete reachable runs ---- *)
 Example silent_peer_times_out :
-  let '(s, _, ok) := canonical (mkscen (mkcfg 30 40 10 4 100000) CAccept [mkact false None false false] 1 1 20 0 false) in
+  let '(s, _, ok) := canonical (mkscen (mkcfg 30 40 10 4 100000) CAccept [mkact false None false false] 1 1 20 0 false false) in
   ok = true /\ model_calls s = [(OTimeout, 20)] /\ queueLen s = 0%Z /\ invokeNum s = 0%Z /\ resp s = [].
 Proof. vm_compute. repeat split; reflexivity. Qed.
 
 Example late_then_fast_replies :
-  let '(s, _, ok) := canonical (mkscen (mkcfg 30 40 10 4 100000) CAccept [mkact false (Some 30) false false; mkact false (Some 0) false false] 1 2 20 1 false) in
+  let '(s, _, ok) := canonical (mkscen (mkcfg 30 40 10 4 100000) CAccept [mkact false (Some 30) false false; mkact false (Some 0) false false] 1 2 20 1 false false) in
   ok = true /\ model_calls s = [(OTimeout, 20); (OReply, 0)] /\ queueLen s = 0%Z /\ invokeNum s = 0%Z /\ resp s = [].
 Proof. vm_compute. repeat split; reflexivity. Qed.
 
+Example one_way_returns_at_once :
+  let '(s, _, ok) := canonical (mkscen (mkcfg 30 40 10 4 100000) CAccept [mkact false None false false] 1 2 20 1 true false) in
+  ok = true /\ model_calls s = [(OSent, 0); (OSent, 0)] /\ queueLen s = 0%Z /\ invokeNum s = 0%Z /\ resp s = [].
+Proof. vm_compute. repeat split; reflexivity. Qed.
+
 Example stalled_three_callers :
-  let '(s, _, ok) := canonical (mkscen (mkcfg 30 40 10 4 100000) CStall [mkact false None false false] 3 1 10 0 false) in
+  let '(s, _, ok) := canonical (mkscen (mkcfg 30 40 10 4 100000) CStall [mkact false None false false] 3 1 10 0 false false) in
   ok = true /\ model_calls s = [(OError, 30); (OError, 60); (OError, 90)].
 Proof. vm_compute. repeat split; reflexivity. Qed.
